@@ -73,6 +73,7 @@ type pluginSpec struct {
 	Reset    func(c *cfgSpec)                     // clears process-global state of the plugin package before a fresh instance
 	After    func()                               // after Start (fix clocks)
 	Skipped  []string                             // documented options that are not exercised
+	Volatile func(c *cfgSpec) bool                // outcome depends on the wall clock: it is not recorded as a state
 }
 
 // ---- loggers ------------------------------------------------------------------------------------------------
@@ -197,6 +198,8 @@ func rootKind(doc string) string {
 }
 
 func wellFormed(s string) bool { return json.Valid([]byte(s)) }
+
+var outcomeDump *os.File // debugging aid: VERIF_OUTCOMES=<file> lists every recorded outcome
 
 // progress / current case for the nontermination watchdog
 var (
@@ -325,8 +328,20 @@ func (rn *runner) report(spec *pluginSpec, c *cfgSpec, events []string, v *viol)
 func (rn *runner) account(spec *pluginSpec, c *cfgSpec, ci int, doc string, so stepOut) {
 	r := rn.r
 	r.Steps(1)
-	if so.res != pipeline.ActionPass || so.sideband > 0 || (so.out != "" && so.out != doc) {
+	if spec.Volatile != nil && spec.Volatile(c) {
+		// the result / content depends on the clock: count by a clock-free rule
+		if doc != timeoutDoc && doc != "{}" {
+			r.Nontrivial()
+		}
+	} else if so.res != pipeline.ActionPass || so.sideband > 0 || (so.out != "" && so.out != doc) {
 		r.Nontrivial()
+	}
+	if spec.Volatile != nil && spec.Volatile(c) {
+		r.Outcome(spec.Type, fmt.Sprint(ci), "clock-dependent")
+		return
+	}
+	if outcomeDump != nil {
+		fmt.Fprintf(outcomeDump, "%s|%d|%s|%d|%s\n", spec.Type, ci, resultNames[so.res], so.sideband, so.out)
 	}
 	r.Outcome(spec.Type, fmt.Sprint(ci), resultNames[so.res], so.out, fmt.Sprint(so.sideband))
 }
@@ -418,44 +433,57 @@ func (rn *runner) runPrefixed(spec *pluginSpec, c *cfgSpec, ci int, prefix, docs
 	}
 }
 
-func (rn *runner) runSequences(spec *pluginSpec, c *cfgSpec, ci int, alpha []string, from, to int) {
+// runSequences enumerates all sequences of exactly `length` letters that start with the given first letters; every
+// prefix of a sequence is checked on the way, so sequences of every shorter length are covered too.
+func (rn *runner) runSequences(spec *pluginSpec, c *cfgSpec, ci int, alpha []string, first []int, length int) {
 	r := rn.r
 	n := len(alpha)
-	for a := from; a < to; a++ {
-		for b := 0; b < n; b++ {
-			for d := 0; d < n; d++ {
-				if alpha[a] == timeoutDoc {
-					rn.pruned++ // a time-out is never the first thing a plugin sees
-					continue
-				}
-				events := []string{alpha[a], alpha[b], alpha[d]}
-				cur := tcase{Plugin: spec.Type, Config: c.JSON, Settings: c.Settings, Events: events}
-				curCase.Store(&cur)
-				v, upto, cutAt := rn.runSeq(spec, c, ci, events, true)
-				if cutAt >= 0 {
-					// the same cut prefix is reached by every continuation; count it once
-					canonical := true
-					for _, x := range []int{a, b, d}[cutAt+1:] {
-						if x != 0 {
-							canonical = false
-						}
-					}
-					if !canonical {
-						rn.pruned++
-						continue
-					}
-				}
-				r.Case()
-				r.Count(spec.Type+".cases", 1)
-				r.Count(spec.Type+".sequences", 1)
-				if v != nil {
-					rn.report(spec, c, events[:upto], v)
-				}
-			}
+	idx := make([]int, length)
+	copy(idx, first)
+	events := make([]string, length)
+	for {
+		for i, x := range idx {
+			events[i] = alpha[x]
 		}
-		if r.Expired() {
+		rn.runOneSequence(spec, c, ci, events, idx)
+		// next combination of the free positions
+		i := length - 1
+		for ; i >= len(first); i-- {
+			idx[i]++
+			if idx[i] < n {
+				break
+			}
+			idx[i] = 0
+		}
+		if i < len(first) || r.Expired() {
 			return
 		}
+	}
+}
+
+func (rn *runner) runOneSequence(spec *pluginSpec, c *cfgSpec, ci int, events []string, idx []int) {
+	r := rn.r
+	if events[0] == timeoutDoc {
+		rn.pruned++ // a time-out is never the first thing a plugin sees
+		return
+	}
+	cur := tcase{Plugin: spec.Type, Config: c.JSON, Settings: c.Settings, Events: append([]string{}, events...)}
+	curCase.Store(&cur)
+	v, upto, cutAt := rn.runSeq(spec, c, ci, events, true)
+	if cutAt >= 0 {
+		// the same cut prefix is reached by every continuation; count it once
+		for _, x := range idx[cutAt+1:] {
+			if x != 0 {
+				rn.pruned++
+				return
+			}
+		}
+	}
+	r.Case()
+	r.Count(spec.Type+".cases", 1)
+	r.Count(spec.Type+".sequences", 1)
+	if v != nil {
+		rn.report(spec, c, events[:upto], v)
 	}
 }
 
@@ -466,21 +494,34 @@ type work struct {
 	cfg      *cfgSpec
 	ci       int
 	docs     []string // a block of single events, or
-	alpha    []string // a sequence alphabet with the range of first letters
-	from, to int
+	alpha    []string // a sequence alphabet with the fixed first letters and the sequence length
+	first    []int
+	length   int
 	owner    int64    // index that decides the shard
 	prefix   []string // single events are sent after this prefix, each on a fresh instance
 }
 
-func seqAlphabet(spec *pluginSpec, c *cfgSpec) []string {
+func seqAlphabet(spec *pluginSpec, c *cfgSpec, thorough bool) []string {
 	var alpha []string
+	extra := append(append([]string{}, c.Extra...), spec.Extra...)
 	switch {
 	case len(c.Seq) > 0:
 		alpha = append(alpha, c.Seq...)
 	case len(spec.Seq) > 0:
 		alpha = append(alpha, spec.Seq...)
 	default:
-		alpha = defaultSeq(c, append(append([]string{}, c.Extra...), spec.Extra...))
+		alpha = defaultSeq(c, extra)
+	}
+	if thorough {
+		// more plugin-specific content in the sequences (single-key documents on the primary field)
+		keys := topKeys(c.Keys)
+		for i := 2; i < len(extra) && i < 8 && len(keys) > 0; i++ {
+			if keys[0].nested {
+				alpha = append(alpha, fmt.Sprintf(`{%q:{%q:%s}}`, keys[0].name, keys[0].inner, extra[i]))
+			} else {
+				alpha = append(alpha, fmt.Sprintf(`{%q:%s}`, keys[0].name, extra[i]))
+			}
+		}
 	}
 	if spec.Timeouts {
 		alpha = append(alpha, timeoutDoc)
@@ -494,6 +535,10 @@ func TestVerif(t *testing.T) {
 	r := vreport.Start("C13")
 	defer r.Finish()
 	rn := &runner{r: r}
+	if f := os.Getenv("VERIF_OUTCOMES"); f != "" {
+		outcomeDump, _ = os.Create(f)
+		defer outcomeDump.Close()
+	}
 	setupGlobals()
 	specs := allSpecs()
 
@@ -555,12 +600,12 @@ func TestVerif(t *testing.T) {
 		return
 	}
 
-	capPerConfig, otherTier := 4000, "other-quick"
+	capPerConfig, otherTier, tiers := 4000, "other-quick", []string{"full", "medium", "small", "tiny"}
 	if r.Thorough() {
-		capPerConfig, otherTier = 60000, "other-thorough"
+		capPerConfig, otherTier, tiers = 60000, "other-thorough", []string{"rich", "full", "medium", "small", "tiny"}
 	}
 	r.Bound("max_single_events_per_config", capPerConfig)
-	r.Bound("max_sequence_length", 3)
+	r.Bound("max_sequence_length", map[bool]int{false: 3, true: 4}[r.Thorough()])
 	r.Bound("event_depth", 2)
 	r.Bound("plugins", len(specs))
 	r.Rule("per accepted config: every depth<=2 object over the named fields + one other key with leaves of the alphabet tier that fits the per-config cap (full 26 / medium 14 / small 8 / tiny 4 leaves + plugin-specific strings) plus root shapes, each on a warm instance; every sequence of 3 events over the per-config sequence alphabet (+ time-out where deliverable) on a fresh instance; non-trivial = result is not Pass, or the event changed, or something was propagated/spawned; distinct = distinct (plugin, config, result, encoded event) outcomes")
@@ -597,8 +642,8 @@ func TestVerif(t *testing.T) {
 			}
 			in.stop()
 			extra := append(append([]string{}, c.Extra...), spec.Extra...)
-			docs, tier := genEvents(c.Keys, extra, capPerConfig, otherTier)
-			alpha := seqAlphabet(spec, c)
+			docs, tier := genEvents(c.Keys, extra, capPerConfig, otherTier, tiers)
+			alpha := seqAlphabet(spec, c, r.Thorough())
 			if r.R.Shard == 0 || c.Heavy {
 				r.Count(spec.Type+".configs_accepted", 1)
 				r.Count(spec.Type+".single_events", int64(len(docs)))
@@ -625,8 +670,18 @@ func TestVerif(t *testing.T) {
 				}
 				items = append(items, work{spec: spec, cfg: c, ci: ci, docs: docs[o:e], owner: owner, prefix: prefix})
 			}
+			seqLen := 3
+			if r.Thorough() && (spec.Stateful || spec.Timeouts) {
+				seqLen = 4
+			}
 			for a := 0; a < len(alpha); a++ {
-				items = append(items, work{spec: spec, cfg: c, ci: ci, alpha: alpha, from: a, to: a + 1, owner: owner})
+				if seqLen == 3 {
+					items = append(items, work{spec: spec, cfg: c, ci: ci, alpha: alpha, first: []int{a}, length: seqLen, owner: owner})
+					continue
+				}
+				for b := 0; b < len(alpha); b++ {
+					items = append(items, work{spec: spec, cfg: c, ci: ci, alpha: alpha, first: []int{a, b}, length: seqLen, owner: owner})
+				}
 			}
 		}
 		if r.R.Shard == 0 {
@@ -655,7 +710,7 @@ func TestVerif(t *testing.T) {
 		} else if w.docs != nil {
 			rn.runBlock(w.spec, w.cfg, w.ci, w.docs)
 		} else if w.alpha != nil {
-			rn.runSequences(w.spec, w.cfg, w.ci, w.alpha, w.from, w.to)
+			rn.runSequences(w.spec, w.cfg, w.ci, w.alpha, w.first, w.length)
 		}
 	}
 	r.Count("sequences_cut_at_undeliverable_timeout", rn.pruned)
